@@ -78,6 +78,16 @@ def compare_with_model(case, out: Outcome, label_check=True, profile_name="c03")
         out.bad(f"rejected-valid:{real['exc'] or 'error'}@{real['frame']}", case,
                 f"model accepts, a816 rejects: {real['status']} {real['exc']} {real.failure_text[:300]}\n{src}")
         return model, real, src
+    if model.free_base:
+        # bytes emitted before the first *= (a leading @=): only their content / order and the labels are specified
+        out.labels.append("leading-reloc")
+        gb, wb = b"".join(d for _, d in real["blocks"]), b"".join(d for _, d in model.blocks)
+        if gb != wb:
+            out.bad("free-base:bytes", case, f"emitted bytes differ (program without a leading *=): {gb[:24].hex()} expected {wb[:24].hex()}\n{src}")
+        elif label_check and sorted(real["labels"]) != sorted(model.labels):
+            a, b = collections.Counter(real["labels"]), collections.Counter(model.labels)
+            out.bad("labels", case, f"label values differ: only real {sorted((a - b).elements())[:6]} only model {sorted((b - a).elements())[:6]}\n{src}")
+        return model, real, src
     got = driver.flatten(real["blocks"])
     want = model.writes
     if collections.Counter(got) != collections.Counter(want):
